@@ -968,4 +968,124 @@ theorem search_answer {lower : Bytes → Bytes} {cv : Conv} {st : State} (hI : I
     rw [List.pairwise_map]
     exact hsorted hs
 
+/-! ### histories against the reference map -/
+
+/-- the history as the reference map sees it: each batch with the verdict the indexes gave -/
+def specHist (lower : Bytes → Bytes) (cv : Conv) (cfg : C01.Cfg) : State → List (C01.Op × C01.Oracle) → List (C01.Op × Bool)
+  | _, [] => []
+  | st, (op, o) :: rest =>
+    (op, indexVerdict lower st (changes cfg cv st.shard op o)) :: specHist lower cv cfg (st.step lower cv cfg op o).1 rest
+
+theorem run_abs (lower : Bytes → Bytes) (cv : Conv) (cfg : C01.Cfg) (h : List (C01.Op × C01.Oracle)) : ∀ (st : State),
+    C01.Inv st.shard →
+    C01.abs (State.run lower cv cfg st h).1.shard = (C01.Coll.run cfg (C01.abs st.shard) (specHist lower cv cfg st h)).1 ∧
+    C01.Out.equivList (State.run lower cv cfg st h).2 (C01.Coll.run cfg (C01.abs st.shard) (specHist lower cv cfg st h)).2 := by
+  induction h with
+  | nil => intro st _; exact ⟨rfl, trivial⟩
+  | cons e rest ih =>
+    obtain ⟨op, o⟩ := e
+    intro st hI
+    obtain ⟨hs1, hs2⟩ := step_shard lower cv cfg st op o
+    obtain ⟨k1, k2, k3⟩ := C01.C01_step cfg st.shard op (withVerdict lower cv cfg st op o) hI
+    rw [← hs1] at k1 k2
+    rw [← hs2] at k3
+    obtain ⟨j1, j2⟩ := ih _ k1
+    simp only [State.run, specHist, C01.Coll.run]
+    rw [k2] at j1 j2
+    exact ⟨j1, k3, j2⟩
+
+theorem step_schema (lower : Bytes → Bytes) (cv : Conv) (cfg : C01.Cfg) (st : State) (op : C01.Op) (o : C01.Oracle) :
+    (st.step lower cv cfg op o).1.schema = st.schema := by
+  by_cases hr : isRejected (st.step lower cv cfg op o).2 = true
+  · rw [step_rejected_same lower cv cfg st op o hr]
+  · have hr' : isRejected (st.step lower cv cfg op o).2 = false := by
+      cases h : isRejected (st.step lower cv cfg op o).2 with
+      | true => exact absurd h hr
+      | false => rfl
+    unfold State.schema
+    rw [(step_idxs lower cv cfg st op o hr').1, List.map_map]
+    rfl
+
+theorem run_schema (lower : Bytes → Bytes) (cv : Conv) (cfg : C01.Cfg) (h : List (C01.Op × C01.Oracle)) : ∀ (st : State),
+    (State.run lower cv cfg st h).1.schema = st.schema := by
+  induction h with
+  | nil => intro st; rfl
+  | cons e rest ih =>
+    obtain ⟨op, o⟩ := e
+    intro st
+    simp only [State.run]
+    rw [ih, step_schema]
+
+theorem init_schema (schema : List (List String × C02.Kind)) (bolt : Bool) : (State.init schema bolt).schema = schema := by
+  simp [State.init, State.schema, List.map_map, Function.comp_def]
+
+theorem equiv_rejected {x : C01.Out} {r : C01.Reason} (h : C01.Out.equiv x (.rejected r)) : x = .rejected r := by
+  cases x <;> simp [C01.Out.equiv] at h
+  subst h; rfl
+
+/-- with a negative index verdict the reference map rejects every batch -/
+theorem coll_step_index_false (cfg : C01.Cfg) (c : C01.Coll) (op : C01.Op) :
+    ∃ r, (C01.Coll.step cfg c op false).2 = .rejected r ∧ (C01.Coll.step cfg c op false).1 = c := by
+  cases op with
+  | insert b =>
+    simp only [C01.Coll.step, C01.Coll.insert]
+    split
+    · exact ⟨_, rfl, rfl⟩
+    · split
+      · exact ⟨_, rfl, rfl⟩
+      · exact ⟨_, rfl, rfl⟩
+  | update b =>
+    simp only [C01.Coll.step, C01.Coll.update]
+    cases C01.Coll.updateLoop cfg c b [] with
+    | error e => exact ⟨_, rfl, rfl⟩
+    | ok r => exact ⟨_, rfl, rfl⟩
+  | delete ids => exact ⟨_, rfl, rfl⟩
+
+/-! ### the node ids of an insert are unused and distinct (C02's `OpOK`, from C01's invariant) -/
+
+theorem insert_fresh (cv : Conv) (b : List (Uuid × Data)) : ∀ (p : Points) (c : Ctr) (p' : Points) (c' : Ctr),
+    PInv p → CInv p.nI c.free c.next → C01.insertLoop p c b = .ok (p', c') → c'.next ≤ idBound →
+    ∃ ns : List Nat, (insertChanges cv p c b).map (·.id) = ns.map nid ∧ ns.Nodup ∧
+      ∀ n ∈ ns, n < idBound ∧ C01.AL.get p.nI n = none := by
+  induction b with
+  | nil => intro p c p' c' _ _ _ _; exact ⟨[], rfl, List.nodup_nil, by simp⟩
+  | cons e rest ih =>
+    obtain ⟨u, d⟩ := e
+    intro p c p' c' hp hc h hb
+    by_cases hex : (C01.AL.get p.pI u).isSome = true
+    · simp [C01.insertLoop, hex] at h
+    · have hu : C01.AL.get p.pI u = none := by
+        cases hg : C01.AL.get p.pI u with
+        | none => rfl
+        | some _ => rw [hg] at hex; exact absurd rfl hex
+      have hl : C01.insertLoop p c ((u, d) :: rest) = C01.insertLoop (C01.setPoint p u c.nextId.1 d) c.nextId.2 rest := by
+        simp [C01.insertLoop, hu]
+      have hch : insertChanges cv p c ((u, d) :: rest) =
+          ⟨nid c.nextId.1, none, idxData cv d⟩ :: insertChanges cv (C01.setPoint p u c.nextId.1 d) c.nextId.2 rest := by
+        simp [insertChanges, hu]
+      rw [hl] at h
+      obtain ⟨hid, hc1⟩ := C01.nextId_spec c hc u
+      obtain ⟨hp1, _, _, hnI1⟩ := C01.setPoint_new hp hu hid d
+      rw [← hnI1] at hc1
+      obtain ⟨_, ihn⟩ := insert_chain cv rest _ _ p' c' hp1 hc1 h hb
+      obtain ⟨ns, h1, h2, h3⟩ := ih _ _ p' c' hp1 hc1 h hb
+      have hlive : C01.AL.get (C01.setPoint p u c.nextId.1 d).nI c.nextId.1 = some u := by
+        rw [hnI1, C01.AL.get_put]; simp
+      have hlt : c.nextId.1 < idBound := by
+        have := (hc1.live_range _ _ hlive).2
+        omega
+      refine ⟨c.nextId.1 :: ns, by rw [hch]; simp [h1], List.nodup_cons.2 ⟨?_, h2⟩, ?_⟩
+      · intro hmem
+        have := (h3 _ hmem).2
+        rw [hlive] at this; cases this
+      · intro n hn
+        rcases List.mem_cons.1 hn with rfl | hn
+        · exact ⟨hlt, hid⟩
+        · obtain ⟨k1, k2⟩ := h3 n hn
+          refine ⟨k1, ?_⟩
+          rw [hnI1, C01.AL.get_put] at k2
+          by_cases he : c.nextId.1 = n
+          · rw [if_pos he] at k2; cases k2
+          · rw [if_neg he] at k2; exact k2
+
 end Sema.Compose
